@@ -260,6 +260,32 @@ class Obj(object):
     pass
 
 
+class Slotted(object):
+    __slots__ = ('discipline', 'event', 'n')
+
+
+class WithProperty(object):
+    def __init__(self, d):
+        self._d = d
+
+    @property
+    def discipline(self):
+        return self._d
+
+    @property
+    def event(self):
+        return self._d
+
+
+class ClassLevel(object):
+    discipline = '400'
+    event = '400'
+
+
+import collections
+Row = collections.namedtuple('Row', 'discipline event n')
+
+
 CUSTOMARY = ['100', '200', '400', '800', '1500', '3000', '5000', '10000', 'MILE', '2MILE', '100H', '110H', '400H', '3000SC', '2000SC', 'SC', 'SH', 'LH',
              '2MT', '3MT', 'HJ', 'PV', 'LJ', 'TJ', 'SP', 'DT', 'HT', 'JT', 'WT', 'SHJ', 'SLJ', 'STJ', 'SP7.26K', 'DT1.5K', 'JT800', 'HT4K', 'TART', 'CHT', 'OHT',
              'CT', 'ST', 'GDT', 'BT', 'SWT', 'OT', 'SSP', 'SDT', 'SJT', 'SBT', 'H1', 'H9', 'L1', 'L9', 'h3', 'l3', '4x100', '4x400', '4x200', '3x800',
@@ -321,9 +347,22 @@ def run_shard(ctx, spec):
                 if A != 'discipline' and rnd.random() < 0.5:
                     item['discipline'] = rnd.choice(src)          # a decoy under the default name
             else:
-                item = Obj()
-                if rnd.random() < 0.9:
+                k = rnd.random()
+                if k < 0.55:
+                    item = Obj()
+                    if rnd.random() < 0.9:
+                        setattr(item, A, d)
+                elif k < 0.7:
+                    item = Slotted()          # no instance __dict__
                     setattr(item, A, d)
+                elif k < 0.82:
+                    item = WithProperty(d)    # the discipline is computed
+                elif k < 0.9:
+                    item = Row(d, d, len(L))  # a record
+                else:
+                    item = ClassLevel()       # a class-level default
+                    if '400' not in src and d is not None:
+                        setattr(item, A, d)
             L.append(item)
         if A == 'discipline':
             attach.call(u.sort_by_discipline, L)
